@@ -63,9 +63,9 @@ impl Parser for CramParser {
 
             // empty line (or comment) can signify end of testcase
             if line.is_empty() {
-                if engine.has_testcase_body() {
-                    engine.end_testcase(index)?;
-                }
+                // (without a body there is no testcase to end, but a dangling
+                // exit code line must not be carried over into the next one)
+                engine.end_testcase(index)?;
                 continue;
             }
 
